@@ -123,6 +123,10 @@ pub trait Engine {
         d.dedup();
         format!("{}:{}", name, d.join(","))
     }
+    /// Same, with the history that led to the mismatch (default: ignore it).
+    fn signature_h(&self, _hist: &[Value], op: &Value, diff: &[String], exp: &Value, got: &Value) -> String {
+        self.signature(op, diff, exp, got)
+    }
 }
 
 fn panic_msg(e: Box<dyn std::any::Any + Send>) -> String {
@@ -196,7 +200,7 @@ pub fn run_edges<E: Engine>(eng: &E, input: &str, output: Option<&str>) {
             continue;
         }
         n_root += 1;
-        let sig = eng.signature(op, &d, &exp, &got);
+        let sig = eng.signature_h(&hist, op, &d, &exp, &got);
         let c = per_sig.entry(sig.clone()).or_default();
         *c += 1;
         if *c <= 2 {
@@ -240,7 +244,7 @@ pub fn run_behaviours<E: Engine>(eng: &E, input: &str, output: Option<&str>) {
             let mut d = vec![];
             jdiff(&exp, &got, "", &mut d);
             if !d.is_empty() {
-                let sig = eng.signature(op, &d, &exp, &got);
+                let sig = eng.signature_h(&ops[..i], op, &d, &exp, &got);
                 let c = per_sig.entry(sig.clone()).or_default();
                 *c += 1;
                 if *c <= 2 {
@@ -308,5 +312,35 @@ impl Args {
     pub fn bad_mode(&self, m: &str) -> ! {
         eprintln!("unknown mode {m}");
         std::process::exit(2)
+    }
+}
+
+/// SpecId by its enum-variant name (e.g. "LONDON").  `SpecId::from(&str)` uses different names
+/// ("London") and silently maps unknown names to LATEST, so it is not used.
+pub fn spec_by_name(name: &str) -> revm_primitives::SpecId {
+    use revm_primitives::SpecId::*;
+    match name {
+        "FRONTIER" => FRONTIER,
+        "FRONTIER_THAWING" => FRONTIER_THAWING,
+        "HOMESTEAD" => HOMESTEAD,
+        "DAO_FORK" => DAO_FORK,
+        "TANGERINE" => TANGERINE,
+        "SPURIOUS_DRAGON" => SPURIOUS_DRAGON,
+        "BYZANTIUM" => BYZANTIUM,
+        "CONSTANTINOPLE" => CONSTANTINOPLE,
+        "PETERSBURG" => PETERSBURG,
+        "ISTANBUL" => ISTANBUL,
+        "MUIR_GLACIER" => MUIR_GLACIER,
+        "BERLIN" => BERLIN,
+        "LONDON" => LONDON,
+        "ARROW_GLACIER" => ARROW_GLACIER,
+        "GRAY_GLACIER" => GRAY_GLACIER,
+        "MERGE" => MERGE,
+        "SHANGHAI" => SHANGHAI,
+        "CANCUN" => CANCUN,
+        "PRAGUE" => PRAGUE,
+        "OSAKA" => OSAKA,
+        "LATEST" => LATEST,
+        o => panic!("unknown SpecId name {o}"),
     }
 }
